@@ -234,6 +234,11 @@ func parseCronExpr(expression string) (expr *cronexpr.Expression, err error) {
 }
 
 func (s *Cron) Add(j *Job) error {
+	// A new job has no entry in the time index yet.  (The field is
+	// our bookkeeping.  A job that comes in over HTTP can carry
+	// one, say when it was made from what '/get' gave for another
+	// job, and 'update' deletes the entry it names.)
+	j.TId = ""
 	if err := j.init(); err != nil {
 		log.Printf("Cron.Add init error: %v", err)
 		return err
